@@ -462,6 +462,13 @@ func genTrial(t *rapid.T) trial {
 		tr.DurKind = "block"
 	}
 	tr.SharedBuilder = rapid.IntRange(0, 2).Draw(t, "sharedBuilder") == 0
+	if rapid.IntRange(0, 11).Draw(t, "spentLimit") == 0 {
+		// a limit computed from a budget that is already spent (time.Until(deadline)): zero or negative, and exceeded at once
+		tr.LimitUs = rapid.SampledFrom([]int{0, -1, -1000}).Draw(t, "limitSpent")
+		if tr.DurKind != "block" {
+			tr.DurKind = rapid.SampledFrom([]string{"zero", "block"}).Draw(t, "durKindSpent")
+		}
+	}
 	return tr
 }
 
